@@ -288,6 +288,84 @@ def _carried_index(g, gflow, sorted_arg, member_tuple, member):
             return isinstance(e, ast.Name) and e.id == gen.target.elts[0].id
     return None
 
+def level_grid_rule(ctx, chk, rule):
+    """populate_zeta_grid: level ids = range(floor(min / step), ceil(max / step)) of the gridded water level, and the step
+    stored is the step used.  Shared by C13.O5 and C09.O4 (a level that is missing from the grid cannot be the origin)."""
+    zg = ctx.func("zeta_grid.populate_zeta_grid")
+    zflow = Flow.of(zg)
+    rng = [c for c in ast.walk(zg.node) if isinstance(c, ast.Call) and isinstance(c.func, ast.Name) and c.func.id == "range" and len(c.args) == 2]
+    bq = None
+    for s in ctx.sites_in(zg):
+        if s.stmt is not None and s.stmt.kind == "select":
+            bq = s
+    if len(rng) != 1 or bq is None:
+        chk.indeterminate(rule, where_of(zg, zg.node), "range(lower, upper) of level ids or the bounds query not found")
+    else:
+        agg = [e[1] if e[0] == "call" else None for e, _ in bq.stmt.columns]
+        step = zg.params[1]
+
+        def bound(n):
+            for _h in range(4):
+                if isinstance(n, ast.Call) and isinstance(n.func, ast.Name) and n.func.id == "int" and n.args:
+                    n = n.args[0]
+                elif isinstance(n, ast.Name) and zflow.def_value(n) is not None:
+                    n = zflow.def_value(n)
+                else:
+                    break
+            fn = None
+            if isinstance(n, ast.Call):
+                fn = (full_call_name(zg.module, n) or "").split(".")[-1]
+                arg = n.args[0] if n.args else None
+            elif isinstance(n, ast.BinOp) and isinstance(n.op, ast.FloorDiv):
+                fn, arg = "floor", ast.BinOp(left=n.left, op=ast.Div(), right=n.right)
+            elif isinstance(n, ast.BinOp) and isinstance(n.op, ast.Div):
+                # int(X / step): the quotient itself is truncated towards zero
+                fn, arg = "int", n
+            else:
+                return None, None
+            which = None
+            if isinstance(arg, ast.BinOp) and not isinstance(arg.op, ast.Div) and isinstance(arg.right, ast.Name) and arg.right.id == step \
+                    and isinstance(arg.op, (ast.Mult, ast.Add, ast.Sub, ast.Mod, ast.Pow)):
+                # aggregate (op) step with another operator: readable, and not the quotient
+                fn = "%s of aggregate %s step, not the quotient:" % (fn, type(arg.op).__name__)
+                arg = ast.BinOp(left=arg.left, op=ast.Div(), right=arg.right)
+            if isinstance(arg, ast.BinOp) and isinstance(arg.op, ast.Div) and isinstance(arg.right, ast.Name) and arg.right.id == step:
+                num = arg.left
+                if isinstance(num, ast.Call) and len(num.args) == 1 and (full_call_name(zg.module, num) or "").split(".")[-1] in ("floor", "ceil", "round", "trunc", "int", "float"):
+                    # rounding applied to the aggregate before the division: readable, and another function
+                    fn = "%s of %s(.)/step" % (fn, (full_call_name(zg.module, num) or "").split(".")[-1]) if fn != "int" else "%s(.)/step truncated" % (full_call_name(zg.module, num) or "").split(".")[-1]
+                    num = num.args[0]
+                if isinstance(num, ast.Subscript) and isinstance(num.slice, ast.Constant) and isinstance(num.slice.value, int) and num.slice.value < len(agg):
+                    which = agg[num.slice.value]
+                elif isinstance(num, ast.Name):
+                    b = binding_of(ctx, zg, bq)
+                    if b is not None and num.id in b.names:
+                        which = agg[b.names.index(num.id)]
+            return fn, which
+
+        lo, hi = bound(rng[0].args[0]), bound(rng[0].args[1])
+        ok = lo == ("floor", "MIN") and hi == ("ceil", "MAX") or (lo == ("ceil", "MIN") and hi == ("ceil", "MAX") and False)
+        if None in lo or None in hi:
+            chk.indeterminate(rule, where_of(zg, rng[0]), "bounds of the level-id range (%s) are not rounding(aggregate / step) in a form this rule reads" % ast.unparse(rng[0])[:80])
+        else:
+            chk.ob(rule, ok, where_of(zg, rng[0]), "level ids = range(%s(%s/step), %s(%s/step))" % (lo[0], lo[1], hi[0], hi[1]),
+                   "range(floor(min/step), ceil(max/step)): contains regrid's [ceil(min/step), ceil(max/step)) and covers the observed range from below",
+                   key="populate_zeta_grid|range", why="a level that is crossed but missing from the grid violates the foreign key (or is silently dropped)")
+        tabs = {x.table for x in bq.stmt.sources}
+        chk.ob(rule, tabs == {"water_level"} and agg == ["MIN", "MAX"], where_of(zg, bq.call), "bounds = %s of %s" % (agg, sorted(tabs)),
+               "(min, max) of the gridded water level", key="populate_zeta_grid|bounds")
+        ins = [s for s in ctx.sites_in(zg) if s.stmt is not None and s.stmt.kind == "insert" and s.stmt.table == "zeta_grid"]
+        sv_ = ins[0].column_values(zflow).get("grid_interval_mm") if ins else None
+        if sv_ is None:
+            chk.indeterminate(rule, where_of(zg, ins[0].call if ins else zg.node), "the value stored in zeta_grid.grid_interval_mm is not a bound parameter")
+        else:
+            svx = zflow.expand(sv_, keep={step})
+            okg = isinstance(svx, ast.Name) and svx.id == step
+            chk.ob(rule, okg, where_of(zg, ins[0].call), "zeta_grid.grid_interval_mm <- %s" % ast.unparse(svx)[:60],
+                   "the step the ids were computed with", key="populate_zeta_grid|stored-step")
+
+
+
 def run(ctx, chk, tier="quick"):
     chk.explanation = (
         "Entity typing (storm id / interval id / level id / grid time) derived from the schema's primary "
@@ -447,6 +525,40 @@ def run(ctx, chk, tier="quick"):
                        "lists appended once per row, unconditionally: %s; conditional appends: %d" % (names_, len(cond)),
                        "series and interval lists grow in lock step", key="compute_rise_offsets|parallel-lists",
                        why="a skipped append shifts every later interval against its series")
+                # ... and stay in lock step afterwards: after the row loop none of them is filtered, re-ordered, shortened
+                # or rebound (positions in one are used as positions in the others)
+                after = [n for n in ast.walk(rise.node) if isinstance(n, ast.stmt) and getattr(n, "lineno", 0) > getattr(loop, "end_lineno", loop.lineno)
+                         and enclosing_func(n) is rise.node]
+                changed = {}
+                for n in after:
+                    if isinstance(n, ast.Assign):
+                        for t in n.targets:
+                            if isinstance(t, ast.Name) and t.id in names_:
+                                v_ = n.value
+                                while isinstance(v_, ast.Call) and isinstance(v_.func, ast.Name) and v_.func.id in ("list", "tuple") and len(v_.args) == 1:
+                                    v_ = v_.args[0]
+                                same = isinstance(v_, ast.Name) and v_.id == t.id
+                                if not same:
+                                    changed.setdefault(t.id, n)
+                    if isinstance(n, ast.Expr) and isinstance(n.value, ast.Call) and isinstance(n.value.func, ast.Attribute) and isinstance(n.value.func.value, ast.Name) \
+                            and n.value.func.value.id in names_ and n.value.func.attr in ("sort", "reverse", "pop", "remove", "insert", "clear", "append", "extend"):
+                        changed.setdefault(n.value.func.value.id, n)
+                    if isinstance(n, ast.Delete):
+                        for t in n.targets:
+                            if isinstance(t, ast.Subscript) and isinstance(t.value, ast.Name) and t.value.id in names_:
+                                changed.setdefault(t.value.id, n)
+                used_after = {nm for nm in names_ if any(isinstance(x, ast.Name) and x.id == nm and isinstance(x.ctx, ast.Load) for n in after for x in ast.walk(n))}
+                partial = sorted(set(changed) & used_after)
+                untouched = sorted((used_after - set(changed)))
+                if changed and untouched and partial:
+                    n0 = changed[partial[0]]
+                    chk.ob("C13.O4", False, where_of(rise, n0),
+                           "%s is rebuilt / changed after the row loop (%s) while %s keeps one entry per row" % (partial[0], ast.unparse(n0)[:60], ", ".join(untouched)),
+                           "lists indexed by the same series id stay aligned: what is done to one after the loop is done to all",
+                           key="compute_rise_offsets|parallel-lists-after", why="a series id returned by the fit is a position in the changed list: the other lists give the interval of another row")
+                else:
+                    chk.ob("C13.O4", True, where_of(rise, loop), "after the row loop the lists %s are %s" % (names_, "all changed alike or not used" if changed else "not changed"),
+                           "lists indexed by the same series id stay aligned", key="compute_rise_offsets|parallel-lists-after")
                 # zeta_intervals element: (index of start, index of thru + 1) of the same row
     # ---- start_epoch written with each offset / crossing (rise + recession)
     for f, tabs, kind in ((rise, ("rising_interval", "rising_interval_zeta"), "rise"),
@@ -539,78 +651,7 @@ def run(ctx, chk, tier="quick"):
     _o4_index_mapping(ctx, chk)
 
     # ------------------------------------------------------------ O5 grid
-    zg = ctx.func("zeta_grid.populate_zeta_grid")
-    zflow = Flow.of(zg)
-    rng = [c for c in ast.walk(zg.node) if isinstance(c, ast.Call) and isinstance(c.func, ast.Name) and c.func.id == "range" and len(c.args) == 2]
-    bq = None
-    for s in ctx.sites_in(zg):
-        if s.stmt is not None and s.stmt.kind == "select":
-            bq = s
-    if len(rng) != 1 or bq is None:
-        chk.indeterminate("C13.O5", where_of(zg, zg.node), "range(lower, upper) of level ids or the bounds query not found")
-    else:
-        agg = [e[1] if e[0] == "call" else None for e, _ in bq.stmt.columns]
-        step = zg.params[1]
-
-        def bound(n):
-            for _h in range(4):
-                if isinstance(n, ast.Call) and isinstance(n.func, ast.Name) and n.func.id == "int" and n.args:
-                    n = n.args[0]
-                elif isinstance(n, ast.Name) and zflow.def_value(n) is not None:
-                    n = zflow.def_value(n)
-                else:
-                    break
-            fn = None
-            if isinstance(n, ast.Call):
-                fn = (full_call_name(zg.module, n) or "").split(".")[-1]
-                arg = n.args[0] if n.args else None
-            elif isinstance(n, ast.BinOp) and isinstance(n.op, ast.FloorDiv):
-                fn, arg = "floor", ast.BinOp(left=n.left, op=ast.Div(), right=n.right)
-            elif isinstance(n, ast.BinOp) and isinstance(n.op, ast.Div):
-                # int(X / step): the quotient itself is truncated towards zero
-                fn, arg = "int", n
-            else:
-                return None, None
-            which = None
-            if isinstance(arg, ast.BinOp) and not isinstance(arg.op, ast.Div) and isinstance(arg.right, ast.Name) and arg.right.id == step \
-                    and isinstance(arg.op, (ast.Mult, ast.Add, ast.Sub, ast.Mod, ast.Pow)):
-                # aggregate (op) step with another operator: readable, and not the quotient
-                fn = "%s of aggregate %s step, not the quotient:" % (fn, type(arg.op).__name__)
-                arg = ast.BinOp(left=arg.left, op=ast.Div(), right=arg.right)
-            if isinstance(arg, ast.BinOp) and isinstance(arg.op, ast.Div) and isinstance(arg.right, ast.Name) and arg.right.id == step:
-                num = arg.left
-                if isinstance(num, ast.Call) and len(num.args) == 1 and (full_call_name(zg.module, num) or "").split(".")[-1] in ("floor", "ceil", "round", "trunc", "int", "float"):
-                    # rounding applied to the aggregate before the division: readable, and another function
-                    fn = "%s of %s(.)/step" % (fn, (full_call_name(zg.module, num) or "").split(".")[-1]) if fn != "int" else "%s(.)/step truncated" % (full_call_name(zg.module, num) or "").split(".")[-1]
-                    num = num.args[0]
-                if isinstance(num, ast.Subscript) and isinstance(num.slice, ast.Constant) and isinstance(num.slice.value, int) and num.slice.value < len(agg):
-                    which = agg[num.slice.value]
-                elif isinstance(num, ast.Name):
-                    b = binding_of(ctx, zg, bq)
-                    if b is not None and num.id in b.names:
-                        which = agg[b.names.index(num.id)]
-            return fn, which
-
-        lo, hi = bound(rng[0].args[0]), bound(rng[0].args[1])
-        ok = lo == ("floor", "MIN") and hi == ("ceil", "MAX") or (lo == ("ceil", "MIN") and hi == ("ceil", "MAX") and False)
-        if None in lo or None in hi:
-            chk.indeterminate("C13.O5", where_of(zg, rng[0]), "bounds of the level-id range (%s) are not rounding(aggregate / step) in a form this rule reads" % ast.unparse(rng[0])[:80])
-        else:
-            chk.ob("C13.O5", ok, where_of(zg, rng[0]), "level ids = range(%s(%s/step), %s(%s/step))" % (lo[0], lo[1], hi[0], hi[1]),
-                   "range(floor(min/step), ceil(max/step)): contains regrid's [ceil(min/step), ceil(max/step)) and covers the observed range from below",
-                   key="populate_zeta_grid|range", why="a level that is crossed but missing from the grid violates the foreign key (or is silently dropped)")
-        tabs = {x.table for x in bq.stmt.sources}
-        chk.ob("C13.O5", tabs == {"water_level"} and agg == ["MIN", "MAX"], where_of(zg, bq.call), "bounds = %s of %s" % (agg, sorted(tabs)),
-               "(min, max) of the gridded water level", key="populate_zeta_grid|bounds")
-        ins = [s for s in ctx.sites_in(zg) if s.stmt is not None and s.stmt.kind == "insert" and s.stmt.table == "zeta_grid"]
-        sv_ = ins[0].column_values(zflow).get("grid_interval_mm") if ins else None
-        if sv_ is None:
-            chk.indeterminate("C13.O5", where_of(zg, ins[0].call if ins else zg.node), "the value stored in zeta_grid.grid_interval_mm is not a bound parameter")
-        else:
-            svx = zflow.expand(sv_, keep={step})
-            okg = isinstance(svx, ast.Name) and svx.id == step
-            chk.ob("C13.O5", okg, where_of(zg, ins[0].call), "zeta_grid.grid_interval_mm <- %s" % ast.unparse(svx)[:60],
-                   "the step the ids were computed with", key="populate_zeta_grid|stored-step")
+    level_grid_rule(ctx, chk, "C13.O5")
 
     # ------------------------------------------------------------ O6 cursor typestate
     from ..typestate import lazy_cursor_loops
@@ -898,7 +939,11 @@ def _lineage_of_stored_rows(ctx, chk, f, flow, kind, tabs, ids_n, offs_n, map_n,
                 # decided only if the resolved expression speaks about the row loop's own quantities
                 row_names = {n.id for n in ast.walk(row_loop.target) if isinstance(n, ast.Name)} if row_loop is not None else set()
                 mentions_row = any(isinstance(n, ast.Name) and n.id in row_names for n in ast.walk(core))
-                if not good and not mentions_row:
+                unread_lookup = any(isinstance(n, ast.Subscript) and isinstance(n.value, ast.Name) and any(isinstance(c_, ast.Call) for c_ in ast.walk(n.slice))
+                                    and index_lookup(n.slice) is None for n in ast.walk(core))
+                if not good and unread_lookup:
+                    chk.indeterminate("C13.O3", where, "%s.start_epoch resolves to %s: an element looked up by something other than an exact position look-up" % (s.stmt.table, ast.unparse(core)[:80]))
+                elif not good and not mentions_row:
                     chk.indeterminate("C13.O3", where, "%s.start_epoch resolves to %s, which is not expressed in the row loop's variables" % (s.stmt.table, ast.unparse(core)[:80]))
                 else:
                     chk.ob("C13.O3", good, where, "%s.start_epoch = %s = %s for the row of series id %s" % (s.stmt.table, ast.unparse(v)[:60], ast.unparse(core)[:80], sid_text),
